@@ -555,6 +555,10 @@ def _run(ctx, torch, soft_one_hot_linspace, soft_unit_step, normalize2mom, momen
     c32 = normalize2mom(torch.tanh).cst
     ctx.obligation("real:normalize2mom-cst-default-dtype-independent", c32 == c64, f"{c32!r} vs {c64!r}")
 
+    import extra_oracles as _xo
+
+    _xo.api_history_and_dtype(ctx, "C16")
+
     ctx.notes["rule"] = (
         "soh: every (interval, number in {2,3,4,7,16,50}, basis, cutoff) x points {start, end, every centre, +-1ulp around each, "
         "far outside, dense interior grid, random}; a case is non-trivial when some component is non-zero. "
